@@ -107,6 +107,10 @@ pub fn dict0() -> GDict {
     d.add(GDef { code: 4294967295, vendor: None, name: "MaxCode".into(), ty: T_OCT, m: false });
     d.add(GDef { code: 0, vendor: Some(0), name: "Zero".into(), ty: T_U64, m: true });
     d.add(GDef { code: 200, vendor: None, name: "Odd".into(), ty: T_UNKNOWN, m: false });
+    // codes that alias code 1 / code 9 when narrowed to 8, 16 or 24 bits
+    d.add(GDef { code: 257, vendor: None, name: "Alias8".into(), ty: T_UTF8, m: false });
+    d.add(GDef { code: 65537, vendor: None, name: "Alias16".into(), ty: T_U64, m: true });
+    d.add(GDef { code: 16777225, vendor: None, name: "Alias24".into(), ty: T_OCT, m: false });
     d
 }
 
@@ -2108,12 +2112,15 @@ fn doc_avp_line(name: &str, code: u32, vendor: Option<u32>, must: Option<&str>, 
 
 fn gen_c14(o: &mut Out, r: &mut Rng, tier: &str) {
     let thorough = tier == "thorough";
-    let codes = [1u32, 2, 3, 4294967295];
-    let vendors = [None, Some(0u32), Some(5), Some(10415)];
+    // the key universe contains pairs that collide under common key packings (xor / sum of code and vendor, code or
+    // vendor narrowed to 16 bits, "no vendor" encoded as 0 or as 2^32-1); every history works on a small random part
+    // of it so that redefinitions of the same key stay frequent
+    let all_codes = [0u32, 1, 2, 3, 65537, 65539, 4294967295];
+    let all_vendors = [None, Some(0u32), Some(1), Some(2), Some(3), Some(5), Some(65541), Some(10415), Some(4294967295)];
     let names = ["A", "B", "C", "Twin", "Sess-Id", "名前 x"];
     let app_names = ["App A", "App B", "Base"];
     let cmd_names = ["Cmd-A", "Cmd-B", "CC"];
-    let rand_doc = |o: &mut Out, r: &mut Rng, mode: &str| {
+    let rand_doc = |o: &mut Out, r: &mut Rng, mode: &str, codes: &[u32], vendors: &[Option<u32>]| {
         o.line("doc_begin");
         for _ in 0..1 + r.below(2) {
             o.line(&format!("app {} {}", r.pick(&APPS), hexd(r.pick(&app_names).as_bytes())));
@@ -2121,7 +2128,7 @@ fn gen_c14(o: &mut Out, r: &mut Rng, tier: &str) {
                 o.line(&format!("cmd {} {}", r.pick(&CMDS), hexd(r.pick(&cmd_names).as_bytes())));
             }
             for _ in 0..r.below(5) {
-                { let n: &str = *r.pick(&names); let t: &str = *r.pick(&TYPE_SPELLINGS); o.line(&doc_avp_line(n, *r.pick(&codes), *r.pick(&vendors), *r.pick(&MUSTS), t)); }
+                { let n: &str = *r.pick(&names); let t: &str = *r.pick(&TYPE_SPELLINGS); o.line(&doc_avp_line(n, *r.pick(codes), *r.pick(vendors), *r.pick(&MUSTS), t)); }
             }
         }
         o.line(&format!("doc_end {}", mode));
@@ -2130,25 +2137,47 @@ fn gen_c14(o: &mut Out, r: &mut Rng, tier: &str) {
     for _ in 0..n_hist {
         o.case("dict-history");
         o.line("dreset");
+        let mut codes: Vec<u32> = vec![];
+        while codes.len() < 3 {
+            let c = *r.pick(&all_codes);
+            if !codes.contains(&c) {
+                codes.push(c);
+            }
+        }
+        let mut vendors: Vec<Option<u32>> = vec![None];
+        while vendors.len() < 4 {
+            let v = *r.pick(&all_vendors);
+            if !vendors.contains(&v) {
+                vendors.push(v);
+            }
+        }
+        let (codes, vendors) = (&codes[..], &vendors[..]);
         let steps = 1 + r.below(if thorough { 30 } else { 12 });
         for _ in 0..steps {
             match r.below(10) {
                 0..=4 => {
                     let ty = r.below(17) as usize;
-                    o.line(&format!("dadd {} {} {} {} {}", r.pick(&codes), vend(*r.pick(&vendors)), hexd(r.pick(&names).as_bytes()), ty_name(ty), r.below(2)));
+                    o.line(&format!("dadd {} {} {} {} {}", r.pick(codes), vend(*r.pick(vendors)), hexd(r.pick(&names).as_bytes()), ty_name(ty), r.below(2)));
                 }
-                5..=7 => rand_doc(o, r, "load"),
+                5..=7 => rand_doc(o, r, "load", codes, vendors),
                 _ => {
                     for _ in 0..r.below(4) {
-                        rand_doc(o, r, "stash");
+                        rand_doc(o, r, "stash", codes, vendors);
                     }
                     o.line("dconstruct");
                 }
             }
-            // the whole key / name universe after every step
+            // this history's keys after every step, and the keys that would collide with them under a packed key
             for c in codes {
                 for v in vendors {
-                    o.line(&format!("dget {} {}", c, vend(v)));
+                    o.line(&format!("dget {} {}", c, vend(*v)));
+                }
+            }
+            for c in all_codes {
+                for v in all_vendors {
+                    if !(codes.contains(&c) && vendors.contains(&v)) && (codes.contains(&c) || vendors.contains(&v) || r.chance(1, 4)) {
+                        o.line(&format!("dget {} {}", c, vend(v)));
+                    }
                 }
             }
             for n in names {
@@ -2474,7 +2503,7 @@ pub fn generate(family: &str, seed: u64, tier: &str, extra: &[String], w: &mut d
                 "c18" => Box::new(|o: &mut Out| {
                     o.line("dump");
                     o.line("acc");
-                    for c in [1u32, 2, 3, 9, 14, 16, 101, 109, 116, 200, 4294967295, 0, 77] {
+                    for c in [1u32, 2, 3, 9, 14, 16, 101, 109, 116, 200, 4294967295, 0, 77, 257, 65537, 16777225, 255, 256, 65535, 65536, 65545, 16777217] {
                         o.line(&format!("get {}", c));
                     }
                 }),
